@@ -1,10 +1,122 @@
 import VOPyVerif.Drv.Proto
-/-! Driver front end for property C11 (line protocol → executable model). -/
+import VOPyVerif.Model.Pessimistic
+/-! Driver front end for property C11 (pessimistic rectangle comparison).
+
+Ops ending in `f` run the `r64` instance (bit-exact mirror of the numpy element-wise path; the
+constant `mirrorSnap` says whether it mirrors the code as it stands or the repaired
+`line_seg_pt_intersect_at_dim`), the others the exact-arithmetic instance (`rnd = id`,
+`snap = false`) that the theorems are about.
+
+* `r64 <q>`                              → nearest binary64 of the rational `q` (ties to even)
+* `verts <l> <u>`                        → matrix of vertices in `itertools.product` order
+* `seg|segf <P1> <P2> <p> <d>`           → `none` or the intersection point
+* `inpoly|inpolyf <p> <poly>`            → `0` not an element / `1` vertex test / `2` edge path only
+* `cd|cdf <W> <l1> <u1> <l2> <u2>`       → `0`/`1` : `check_dominates(order, R₁, R₂)`
+* `cdpath|cdpathf <W> <l1> <u1> <l2> <u2>` → per vertex of R₁ the `inpoly` code (nat list)
+* `pess|pessf <W> <L> <U> <active>`      → kept designs (`L`,`U` matrices of lower/upper bounds)
+* `ref <W> <l1> <u1> <l2> <u2> <s>`      → `1` / `0` / `inconclusive`: certificate-checked exact
+  decision of `∀ x ∈ box R₁ ∃ y ∈ box R₂ ∀ i, W_i·(x−y) ≥ s_i` (`bad-op` unless all lengths agree,
+  `l ≤ u` for both boxes and `|s| = |W|`)
+* `refpt <W> <x> <l> <u> <s>`            → `ok <y>` / `farkas <λ>` (raw search result, unchecked)
+-/
 namespace VOPy.Drv.C11
-open VOPy VOPy.Proto
+open VOPy VOPy.Proto VOPy.Pess
+
+/-- Does the float mirror (`…f` ops) model the repaired `line_seg_pt_intersect_at_dim` that snaps the
+target coordinate (`point_on_line[target_dim] = target_pt[target_dim]`)?  `false` = the code as it
+stands in /repo; switch to `true` when the fix lands. -/
+def mirrorSnap : Bool := false
+
+def fmtOptVec : Option Vec → String
+  | some v => fmtVec v
+  | none => "none"
+
+/-- all bounds of length `m`, rows of `W` of length `m` -/
+def wf2 (W : Mat) (l1 u1 l2 u2 : Vec) : Bool :=
+  let m := l1.length
+  u1.length == m && l2.length == m && u2.length == m && wfMat m W
+
+def seg (rnd : Rat → Rat) (snap : Bool) : List String → String
+  | [a, b, p, d] =>
+    match parseVec a, parseVec b, parseVec p, d.toNat? with
+    | some A, some B, some P, some D =>
+      if A.length == B.length && B.length == P.length && D < A.length then fmtOptVec (lineSegAt rnd snap A B P D)
+      else bad
+    | _, _, _, _ => bad
+  | _ => bad
+
+def inpoly (rnd : Rat → Rat) (snap : Bool) : List String → String
+  | [p, poly] =>
+    match parseVec p, parseMat poly with
+    | some P, some Q =>
+      if !Q.isEmpty && Q.all (fun v => v.length == P.length) then toString (isPtInPath rnd snap P Q) else bad
+    | _, _ => bad
+  | _ => bad
+
+def cd (rnd : Rat → Rat) (snap : Bool) (path : Bool) : List String → String
+  | [w, a, b, c, d] =>
+    match parseMat w, parseVec a, parseVec b, parseVec c, parseVec d with
+    | some W, some l1, some u1, some l2, some u2 =>
+      if !wf2 W l1 u1 l2 u2 || W.isEmpty then bad
+      else if path then
+        let V2 := (vertices l2 u2).map (matVec W)
+        fmtNats ((vertices l1 u1).map fun x => isPtInPath rnd snap (matVec W x) V2)
+      else fmtBool (checkDominatesR rnd snap W l1 u1 l2 u2)
+    | _, _, _, _, _ => bad
+  | _ => bad
+
+def pess (rnd : Rat → Rat) (snap : Bool) : List String → String
+  | [w, l, u, act] =>
+    match parseMat w, parseMat l, parseMat u, parseNats act with
+    | some W, some L, some U, some A =>
+      if L.length != U.length || W.isEmpty || !A.all (· < L.length) then bad
+      else
+        let regions := L.zip U
+        if regions.all (fun r => r.1.length == r.2.length && wfMat r.1.length W) then
+          fmtNats (pessimisticSetR rnd snap W regions A)
+        else bad
+    | _, _, _, _ => bad
+  | _ => bad
 
 def handle (args : List String) : String :=
   match args with
+  | ["r64", q] =>
+    match parseRat q with
+    | some r => fmtRat (r64 r)
+    | none => bad
+  | ["verts", l, u] =>
+    match parseVec l, parseVec u with
+    | some L, some U => if L.length == U.length then fmtMat (vertices L U) else bad
+    | _, _ => bad
+  | "seg" :: rest => seg exact false rest
+  | "segf" :: rest => seg r64 mirrorSnap rest
+  | "inpoly" :: rest => inpoly exact false rest
+  | "inpolyf" :: rest => inpoly r64 mirrorSnap rest
+  | "cd" :: rest => cd exact false false rest
+  | "cdf" :: rest => cd r64 mirrorSnap false rest
+  | "cdpath" :: rest => cd exact false true rest
+  | "cdpathf" :: rest => cd r64 mirrorSnap true rest
+  | "pess" :: rest => pess exact false rest
+  | "pessf" :: rest => pess r64 mirrorSnap rest
+  | ["ref", w, a, b, c, d, s] =>
+    match parseMat w, parseVec a, parseVec b, parseVec c, parseVec d, parseVec s with
+    | some W, some l1, some u1, some l2, some u2, some S =>
+      if wf2 W l1 u1 l2 u2 && vle l1 u1 && vle l2 u2 && S.length == W.length then
+        match refDominates W l1 u1 l2 u2 S with
+        | some true => "1"
+        | some false => "0"
+        | none => "inconclusive"
+      else bad
+    | _, _, _, _, _, _ => bad
+  | ["refpt", w, x, l, u, s] =>
+    match parseMat w, parseVec x, parseVec l, parseVec u, parseVec s with
+    | some W, some X, some L, some U, some S =>
+      if wfMat L.length W && X.length == L.length && U.length == L.length && S.length == W.length then
+        match refPointCert W X L U S with
+        | .ok y => "ok " ++ fmtVec y
+        | .error lam => "farkas " ++ fmtVec lam
+      else bad
+    | _, _, _, _, _ => bad
   | _ => bad
 
 end VOPy.Drv.C11
